@@ -1,9 +1,11 @@
 import os
 from driver import Leg
 
-# VERIF_C03_MASK=rawrecursion skips the regress witness of the defect this check found on the pinned tree
-# (RawDataMessageIOGateway::DoInputImplementation recurses once per delivered min-size chunk; key
-# regress|raw|unbounded-recursion-per-chunk) and counts it as masked_rawrecursion.  Default: strict.
+# The defect this check found on the pinned tree (RawDataMessageIOGateway::DoInputImplementation recursed once per delivered min-size
+# chunk: 24 KB of pending input with minChunkSize=1 overflowed the stack) is repaired in /repo; it keeps its stable key
+# regress|raw|unbounded-recursion-per-chunk and a fixed witness (stack growth measured over 400 chunks, then a 100000-chunk burst).
+# VERIF_C03_MASK=rawrecursion exists only to judge a tree OLDER than that repair (counted masked_rawrecursion; such a tree would also
+# overflow the stack in the pipe leg's raw_min1 cases).  Default: strict.
 _MASK = os.environ.get('VERIF_C03_MASK', '')
 
 
@@ -69,7 +71,7 @@ SPEC = dict(
                  'flatten/unflatten identity of Messages is C01\'s; Messages here carry no pointer/tag fields; C gateways get the common codec repertoire, pre-validated through MiniMessage',
                  'text lines contain no NUL/CR/LF; WebSocket text items are non-empty and free of CR/LF (the receiver tokenises on them); zero-length raw chunks (AddData() rejects them, FindData() cannot return them) are not generated unless --opt zerochunks=1',
                  'a foreign WebSocket peer never starts a fragmented message with an empty fragment and never interleaves control frames with fragments',
-                 'RawDataMessageIOGateway calls are capped to 300 chunks / 3000 dribbled bytes per call (containment of regress|raw|unbounded-recursion-per-chunk, counted contained_raw_calls_capped)',
+                 'RawDataMessageIOGateway::DoOutputImplementation recurses once per chunk / partial write of the LOCAL sender\'s own Message: sender Messages hold <= 3 chunks and a byte-by-byte dribbling transport gets <= 3000 bytes per DoOutput call (counted unspecified_sender_chunks_capped)',
                  'UBSan alignment reports in MiniMessageGateway GetNextPointer/SetNextPointer are allow-listed (DESIGN.md 2.1)'],
     legs=[
         Leg('regress', 'h_gwpipe', 'asan', opts=_o(mode='regress'), quick=1, thorough=1, workers=1, leaks=True, min_cases=1),
@@ -78,6 +80,6 @@ SPEC = dict(
         Leg('memcheck', 'h_gwpipe', 'plain', opts={'mode': 'pipe', 'short': '1'}, quick=34 * 3 * 4, thorough=34 * 3 * 80, workers=16, valgrind=True),
     ],
     min_stats={'pipe': _pipe_min, 'sweep': {'sweep_read_cut_cases': 90000, 'sweep_write_cut_cases': 90000, 'cut_m8_hdr3': 50, 'cut_m8_at2048': 10, 'cut_line_between_cr_lf': 1, 'cut_slip_after_esc': 5, 'cut_ws_hdr1': 10, 'cut_ws_http_mid': 100},
-               'regress': {'regress_replayed_cases': 60, 'regress_zero_byte_reads': 4}},
+               'regress': {'regress_replayed_cases': 60, 'regress_zero_byte_reads': 4, 'regress_raw_burst_chunks': 100000}},
     post=_post, extra_coverage=_extra,
 )
